@@ -93,7 +93,7 @@ def crash_violation(v, what, rc, cmds, err):
 
 
 def trace_cfg(name):
-    p = os.path.join(vlib.BUILD, name + ".cfg")
+    p = os.path.join(vlib.cfgdir(), name + ".cfg")
     with open(p, "w") as f:
         f.write("SPECIFICATION TSpec\nCONSTANTS\n  Objs = {1,2,3}\n  Addrs = {%s}\n  MaxSteps = 0\n  FirstAtSys = TRUE\n"
                 "INVARIANTS BindOK AfterEvolve SysUnique\nPOSTCONDITION Accepted\nCHECK_DEADLOCK FALSE\n" % ",".join(str(i) for i in range(0, 600)))
@@ -160,7 +160,7 @@ def expected_vector(e):
 
 
 def flow_cfg(name, ncfg, maxseg, ticks, first, later, tdep=(0, 1)):
-    p = os.path.join(vlib.BUILD, name + ".cfg")
+    p = os.path.join(vlib.cfgdir(), name + ".cfg")
     with open(p, "w") as f:
         f.write("SPECIFICATION Spec\nCONSTANTS\n  NCfg = %d\n  MaxSeg = %d\n  Ticks = {%s}\n  FirstSw = {%s}\n  LaterSw = {%s}\n  TDep = {%s}\n"
                 "INVARIANTS Semigroup SemigroupT ZeroIsIdentity Hermitian AllOffFrame\nACTION_CONSTRAINT Emit\nCHECK_DEADLOCK FALSE\n" % (
@@ -398,7 +398,7 @@ def example_traces(v, names, maxev, tlimit=240):
                 raise vlib.Infra("environment outside assumption in examples/%s: GSL evaluated the first right-hand side of a run away from the caller's array" % name)
             with open(trace, "w") as f:
                 f.write("\n".join(lines) + "\n")
-            cfg = os.path.join(vlib.BUILD, "SolverHookTrace_run.cfg")
+            cfg = os.path.join(vlib.cfgdir(), "SolverHookTrace_run.cfg")
             with open(cfg, "w") as f:
                 f.write("SPECIFICATION TSpec\nCONSTANTS\n  Objs = {1,2,3,4,5,6,7,8}\n  Addrs = {%s}\n  MaxSteps = 0\n  FirstAtSys = TRUE\n"
                         "INVARIANTS BindOK AfterEvolve SysUnique\nPOSTCONDITION Accepted\nCHECK_DEADLOCK FALSE\n" % ",".join(str(i) for i in range(0, 600)))
